@@ -7,7 +7,8 @@ import torch
 A = 4
 ACTS = ["ReLU", "ReLU6", "RReLU", "SELU", "CELU", "GELU", "SiLU", "Mish", "ELU", "LeakyReLU", "Sigmoid", "Tanh", "Softplus", "Softshrink",
         "LogSigmoid", "PReLU"]
-CONVS = [(1, 1, 1, 0), (2, 1, 1, 0), (3, 1, 1, 0), (3, 1, 1, 1), (3, 1, 1, "same"), (2, 2, 1, 0), (2, 1, 2, 0), (3, 2, 1, 1)]   # (k, stride, dilation, padding)
+CONVS = [(1, 1, 1, 0), (2, 1, 1, 0), (3, 1, 1, 0), (3, 1, 1, 1), (3, 1, 1, "same"), (2, 2, 1, 0), (2, 1, 2, 0), (3, 2, 1, 1),
+         (3, 1, 1, 1, "nobias"), (2, 1, 1, 1, "reflect")]   # (k, stride, dilation, padding[, option])
 
 # skeletons: C conv, A activation, M max-pool (default stride), P avg-pool, F flatten, L hidden linear; a final Linear is appended
 SKELETONS = {
@@ -38,7 +39,9 @@ def build(skeleton, acts, convs, pool, L, n_out, wseed):
         return torch.randint(lo, hi, shape, generator=g).double() / 4.0
     for s in skeleton:
         if s == "C":
-            k, st, dil, pad = convs[ci % len(convs)]
+            cfg = convs[ci % len(convs)]
+            k, st, dil, pad = cfg[:4]
+            opt = cfg[4] if len(cfg) > 4 else None
             ci += 1
             span = dil * (k - 1) + 1
             if pad == "same":
@@ -49,10 +52,12 @@ def build(skeleton, acts, convs, pool, L, n_out, wseed):
                 if ln + 2 * pad < span:
                     return None
                 new_ln = (ln + 2 * pad - span) // st + 1
-            c = torch.nn.Conv1d(ch, 3, k, stride=st, dilation=dil, padding=pad).double()
+            c = torch.nn.Conv1d(ch, 3, k, stride=st, dilation=dil, padding=pad, bias=(opt != "nobias"),
+                                padding_mode=("reflect" if opt == "reflect" else "zeros")).double()
             with torch.no_grad():
                 c.weight.copy_(qint(c.weight.shape))
-                c.bias.copy_(qint(c.bias.shape))
+                if c.bias is not None:
+                    c.bias.copy_(qint(c.bias.shape))
             layers.append(c)
             ch, ln = 3, new_ln
         elif s == "A":
@@ -176,11 +181,11 @@ def architectures(max_depth, full_depth2, seed):
                         s[slot] = a
                     act_sets.append(tuple(s))
             act_sets = sorted(set(act_sets))
-            conv_sets = [tuple(CONVS[(i + q) % len(CONVS)] for q in range(nc)) for i in (0, 2, 3, 5)] if nc else [()]
+            conv_sets = [tuple(CONVS[(i + q) % len(CONVS)] for q in range(nc)) for i in (0, 2, 3, 5, 8, 9)] if nc else [()]
         for acts in act_sets:
             for convs in conv_sets:
                 for pool in pools:
-                    yield ("%s|%s|%s|p%d" % (sk, ",".join(acts), ";".join("k%ds%dd%dp%s" % c for c in convs), pool), sk, acts, convs, pool)
+                    yield ("%s|%s|%s|p%d" % (sk, ",".join(acts), ";".join("k%ds%dd%dp%s" % c[:4] + (c[4] if len(c) > 4 else "") for c in convs), pool), sk, acts, convs, pool)
 
 
 def min_delta_in(model, X, R):
